@@ -57,6 +57,7 @@ impl StateMachine<'_> {
         // (it connects the plus_file and minus_file),
         // and to call fn handle_generic_diff_header_header_line directly.
         if self.config.color_only {
+            self.painter.emit()?;
             write_generic_diff_header_header_line(
                 &self.line,
                 &self.raw_line,
